@@ -124,10 +124,13 @@ func (s *rrSegFetcher) doCheck() {
 	defer s.doCheck()
 
 	// queue outgoing interest for the next segment
+	// (a fresh slice: the Interests are encoded later, and appending to fetchName would let
+	// all Interests of this batch share one backing array when it has spare capacity)
+	segName := make(enc.Name, len(state.fetchName)+1)
+	copy(segName, state.fetchName)
+	segName[len(state.fetchName)] = enc.NewSegmentComponent(seg)
 	args := ExpressRArgs{
-		Name: append(state.fetchName,
-			enc.NewSegmentComponent(seg),
-		),
+		Name: segName,
 		Config: &ndn.InterestConfig{
 			MustBeFresh: false,
 		},
